@@ -281,6 +281,39 @@ def history_write_once(ctx, n, nsteps):
         ctx.sample({"history": [m["kind"] + (":" + json.dumps(m.get("plan")) if m.get("plan") else "") for m in cases[0]["marks"] if m["kind"] in ("backup", "delete", "validate")]})
 
 
+def faults_in_band_creation(ctx, n):
+    """every single failure among the first operations of a backup (lock check .. head write):
+    nothing that existed may change, and the backup may not remove anything"""
+    cases = []
+    for t in range(n):
+        t0, t1 = scen.small_tree(ctx.rng), scen.small_tree(ctx.rng)
+        for k in range(1, 9):
+            kind = ctx.rng.choice(["NotFound", "AlreadyExists", "PermissionDenied", "Other"])
+            steps = [{"op": "init"}, {"op": "mktree", "path": "src", "tree": t0}, {"op": "backup", "opts": scen.small_opts(ctx.rng)},
+                     {"op": "mktree", "path": "src", "tree": t1}, {"op": "arch"},
+                     {"op": "backup", "opts": scen.small_opts(ctx.rng), "plan": {"faults": [[k, kind]]}}, {"op": "arch"}]
+            cases.append({"id": f"f{t}_{k}", "steps": steps, "k": k, "kind": kind})
+    res = ctx.cvh_run(cases)
+    for c in cases:
+        r = res.get(c["id"])
+        ctx.count()
+        small = {"steps": c["steps"]}
+        if r is None:
+            ctx.oracle_fail("writeonce/harness-died", "harness died or hung", small)
+            continue
+        bk = r[-2]
+        rm = [it for it in bk.get("trace", []) if it["verb"] in ("RemoveFile", "RemoveDirAll")]
+        if rm:
+            ctx.oracle_fail("writeonce/backup-issued-remove", f"after operation {c['k']} failed with {c['kind']} the backup issued {rm[0]['verb']} {rm[0]['path']}", small)
+            continue
+        before, after = scen.raw_files(r[-3]["arch"]), scen.raw_files(r[-1]["arch"])
+        bad = [p for p, h in before.items() if after.get(p) != h]
+        if bad:
+            ctx.oracle_fail("writeonce/backup-altered-file", f"after operation {c['k']} failed the backup changed or removed {bad[0]}", small)
+            continue
+        ctx.nontrivial(f"bandcreate-fault:{c['k']}:{c['kind']}")
+
+
 def racing_backups(ctx, n):
     cases = []
     for t in range(n):
@@ -295,9 +328,14 @@ def racing_backups(ctx, n):
         npre = ctx.rng.randrange(0, 3)
         sched = []
         cur = ctx.rng.randrange(2)
-        for _ in range(npre + 1):
-            sched += [cur] * ctx.rng.randrange(1, 14)
-            cur = 1 - cur
+        if t % 2 == 0:
+            # the window in which both pick the same id: one actor gets as far as listing the
+            # archive for its new band (3-4 ops), then the other runs through its band creation
+            sched = [cur] * ctx.rng.choice([3, 4, 4]) + [1 - cur] * ctx.rng.choice([7, 8, 12, 40, 200])
+        else:
+            for _ in range(npre + 1):
+                sched += [cur] * ctx.rng.randrange(1, 14)
+                cur = 1 - cur
         steps += [{"op": "mktree", "path": "srca", "tree": ta}, {"op": "mktree", "path": "srcb", "tree": tb},
                   {"op": "snap", "path": "srca"}, {"op": "snap", "path": "srcb"}, {"op": "arch"},
                   {"op": "race", "schedule": sched,
@@ -326,6 +364,9 @@ def racing_backups(ctx, n):
         written = {}
         viol = None
         for it in race["trace"]:
+            if it["verb"] in ("RemoveFile", "RemoveDirAll"):
+                viol = f"a backup (actor {it['actor']}) issued {it['verb']} {it['path']}"
+                break
             if it["verb"] == "Write" and (it.get("reply") or {}).get("ok"):
                 if it["path"] in written:
                     viol = f"{it['path']} was written successfully by actor {written[it['path']]} and again by actor {it['actor']}"
@@ -341,6 +382,11 @@ def racing_backups(ctx, n):
             mixed = [b for b, s in owners.items() if len(s) > 1]
             if mixed:
                 viol = f"both backups wrote into version {mixed[0]}"
+        if viol is None:
+            # everything either backup wrote successfully is still there at the end
+            gone = [p for p in written if p not in after]
+            if gone:
+                viol = f"{gone[0]} was written successfully during the race but is gone at the end"
         if viol:
             ctx.oracle_fail("race/loser-wrote-into-winner", "two racing backups: " + viol, small)
             continue
@@ -360,7 +406,8 @@ def run(ctx):
                        "backups under explicit schedules. non-trivial = distinct call sequence / history / schedule")
     transport_contract(ctx, 60 if quick else 2000)
     history_write_once(ctx, 14 if quick else 300, 7 if quick else 16)
-    racing_backups(ctx, 16 if quick else 400)
+    faults_in_band_creation(ctx, 3 if quick else 40)
+    racing_backups(ctx, 30 if quick else 600)
     ctx.assumptions += ["the local transport is the one exercised; S3/SFTP are outside (they already refuse an existing path)",
                         "a zero-length leftover of a killed write may be completed (documented exception)"]
 
